@@ -100,9 +100,12 @@ def main(argv) -> int:
                 rc, out = core.lake(["build", target])
                 if rc == 0:
                     return rc, out, False
-                files = set(re.findall(r"error: ((?:PdModel|PdProps|Generated)/\w+\.lean)", out))
-                foreign = bool(files) and not (files & own)
-                if not foreign:
+                files = set(re.findall(r"error: ((?:PdModel|PdProps|Generated)/\w+\.lean|Driver\.lean|PdModel\.lean|PdProps\.lean)", out))
+                # an error is this property's only when it names one of the files the property depends on; anything else
+                # (another property's half-written file, a transient "no such file" / link error while another build
+                # rewrites .lake) is retried and, if it persists, reported as infrastructure (exit 2), never as a violation
+                mine = {f for f in files if f in own or f == "Driver.lean" or f.replace("IO.lean", ".lean") in own}
+                if mine:
                     return rc, out, False
                 time.sleep(15)
             return rc, out, True
